@@ -24,7 +24,7 @@ use crate::{
     decode::decode_len,
     error::Details,
     schema::{DecimalSchema, InnerDecimalSchema, Name, UnionSchema, UuidSchema},
-    util::{zag_i32, zag_i64},
+    util::{safe_len, zag_i32, zag_i64},
 };
 
 mod block;
@@ -190,7 +190,8 @@ impl<'s, 'r, R: Read, S: Borrow<Schema>> SchemaAwareDeserializer<'s, 'r, R, S> {
     ///
     /// This does not check the current schema.
     fn read_bytes(&mut self, length: usize) -> Result<Vec<u8>, Error> {
-        let mut buf = vec![0; length];
+        // `length` can come from the schema (fixed size), which may be untrusted
+        let mut buf = vec![0; safe_len(length)?];
         self.reader
             .read_exact(&mut buf)
             .map_err(Details::ReadBytes)?;
